@@ -6,7 +6,8 @@ from vprun import Run
 
 STRICT = ["C14_DownWellFormed", "C14_DownAggregator", "C14_RoundTrip", "C14_RoundTripConfed",
           "C14_RoundTripAggregator", "C14_NoEmptyOrOverlong", "C14_NoLengthening",
-          "C14_NoLengtheningConfed", "C14_IgnoreLongerAs4", "C14_IgnoreLongerAs4Confed"]
+          "C14_NoLengtheningConfed", "C14_IgnoreLongerAs4", "C14_IgnoreLongerAs4Confed",
+          "C14_GroupInputIntact", "C14_SharedListUnchanged"]
 HAS_KF_FORM = {"C14_RoundTrip", "C14_RoundTripConfed", "C14_NoEmptyOrOverlong", "C14_NoLengthening",
                "C14_NoLengtheningConfed", "C14_IgnoreLongerAs4Confed"}
 
@@ -124,6 +125,8 @@ def staged_validate(run, eff, traces, behs, g, chunk):
 def kf_class(beh):
     """Only used to pick a few schedules for the KNOWN-FINDING demonstration (no verdict)."""
     b = json.loads(beh)
+    if b["kind"] == "grp":
+        return None
     if b["kind"] == "rt":
         p = b["p"]
         wide = any(d["w"] != "none" for d in p if d["t"] in ("SEQ", "SET"))
@@ -157,6 +160,7 @@ def families(thorough):
             dict(name="pair-long", mode="pair", segs2=2, segs4=2, lens2=[1, 2, 254, 255],
                  lens4=[1, 2, 254, 255], pats2=["last"], pats4=["all"], long=True, mod=32),
             MERGE,
+            dict(name="grp-small", mode="grp", segs2=2, lens2=[1, 2], pats2=["none", "last", "all"], mod=3),
         ]
     return [
         dict(name="rt-small", mode="rt", segs2=3, lens2=[1, 2], pats2=P4, mod=1),
@@ -170,6 +174,8 @@ def families(thorough):
         dict(name="pair-long3", mode="pair", segs2=3, segs4=2, lens2=[1, 255], lens4=[2, 254, 255],
              pats2=["none"], pats4=["last"], long=True, mod=12),
         MERGE,
+        dict(name="grp-small", mode="grp", segs2=2, lens2=[1, 2], pats2=["none", "last", "all"], mod=1),
+        dict(name="grp-long", mode="grp", segs2=2, lens2=[1, 255], pats2=["none", "all"], long=True, mod=4),
     ]
 
 
@@ -184,7 +190,7 @@ def main(run: Run):
 
     eff, weak = effective_cfg(run)
     fams = families(thorough)
-    for g in ("rt", "pair"):
+    for g in ("rt", "pair", "grp"):
         t0 = time.time()
         if run.replay:
             behs = run.replay_behaviours(g)
@@ -225,7 +231,10 @@ RULE = ("schedules = shape descriptors enumerated exhaustively by TLC (As4Gen.tl
         "{1,2} (all wide/narrow patterns) and {1,2,254,255} (none/first/last/all wide), with "
         "AGGREGATOR none/2-octet/4-octet/65536/>=2^31; (pair) independent (2-octet AS_PATH, AS4_PATH) "
         "pairs, AS4_PATH absent/shorter/equal/longer, confederation segments on both sides, unrelated "
-        "segment boundaries and kinds. The Go harness concretises them, runs UpdatePathAttrs2ByteAs/"
+        "segment boundaries and kinds; (grp) k = 2..3 UPDATE messages of one attribute group sharing one "
+        "attribute list (a shared slice, or cut by CreateUpdateMsgFromPaths from ~1700 NLRIs), path shapes "
+        "with/without 4-octet ASNs crossed with every AGGREGATOR choice, converted one after the other: "
+        "round trip of every message and the shared list unchanged. The Go harness concretises them, runs UpdatePathAttrs2ByteAs/"
         "UpdatePathAggregator2ByteAs, real 2-octet serialisation and re-parse, UpdatePathAttrs4ByteAs/"
         "UpdatePathAggregator4ByteAs; every recorded step is judged by As4Trace.tla. non-trivial = a "
         "reconstruction whose AS4_PATH is present and has a countable segment, counted by distinct "
